@@ -663,6 +663,34 @@ def wholerun_configs(ctx, n):
     return cfgs
 
 
+# "wide" configurations of the shared generator (harness/wholerun.make_config(wide=...)): leaves the base
+# generator never varies and boundary values.  Tags that change what feeds the inventory: the factor itself
+# (estimate: 0 / 0.001), how long / how often / when surveys happen (workday, freq, months, years, crews,
+# coverage), what is tagged and repaired when (delays, repairs) and the number of simulations (sims).
+WIDE_TAGS = ["estimate", "workday", "freq", "months", "years", "delays", "crews", "coverage", "repairs", "sims"]
+WIDE_PLAN_QUICK = [["estimate"], True]
+WIDE_PLAN_THOROUGH = [["estimate"], ["estimate", "sims"], ["workday"], ["freq", "months"], ["years", "delays"],
+                      ["crews"], ["coverage"], ["repairs", "sims"], WIDE_TAGS, True, True]
+
+
+def wholerun_wide_configs(ctx):
+    """no duration_factor / n_sims override here: those leaves are left to the shared generator (base draw
+    or wide entry) and the oracle reads them from the resulting configuration"""
+    from harness import wholerun as WR
+    cfgs = []
+    for i, wide in enumerate(WIDE_PLAN_QUICK if ctx.quick else WIDE_PLAN_THOROUGH):
+        mode = ["measurement-based", "component-based"][i % 2]
+        cfg = WR.make_config(ctx.rng, duration_method=mode, ndays=ctx.rng.choice([120, 200]), wide=wide)
+        cfg["_c13_wide"] = "all" if wide is True else list(wide)
+        cfgs.append(cfg)
+    return cfgs
+
+
+def json_short(x):
+    import json
+    return json.dumps(x)[:300] if x else ""
+
+
 def _site_key(x):
     x = str(x)
     return x[:-2] if x.endswith(".0") else x
@@ -738,6 +766,12 @@ def oracle_wholerun(ctx, res):
             got = wholerun_groups(res, prog, sim, comp_mode)
             if got is None:
                 ctx.count("wholerun_program_sims_without_estimate_file")
+                if not per:
+                    ctx.count("wholerun_not_judged:no-survey-completed-by-the-program")
+                elif comp_mode:
+                    # component mode writes a file only if some survey reported a component; the log does not
+                    # say which surveys detected something
+                    ctx.count("wholerun_not_judged:component-mode-surveys-without-estimate-file")
                 if not comp_mode and per:
                     ctx.violate("C13:wholerun:site:surveys-but-no-estimate-file",
                                 "sites were surveyed but the program wrote no estimated emissions file",
@@ -872,7 +906,18 @@ def wholerun_stage(ctx):
     from harness import wholerun as WR
     corpus = wholerun_corpus()
     ctx.count("wholerun_corpus_configs", len(corpus))
-    cfgs = corpus + wholerun_configs(ctx, ctx.pick(2, 10))
+    wide_cfgs = wholerun_wide_configs(ctx)
+    cfgs = corpus + wholerun_configs(ctx, ctx.pick(2, 10)) + wide_cfgs
+    for c in wide_cfgs:
+        ctx.count("wholerun_wide_configs")
+        if c["_c13_wide"] == "all":
+            ctx.count("wholerun_wide_configs_all_tags")
+        for a in c.get("wide_applied", []):
+            ctx.count("wholerun_wide_applied:" + a["tag"])
+    ctx.extra["wide_applied"] = [{"tags": c["_c13_wide"], "method": c["duration_method"], "factor": c["duration_factor"],
+                                  "n_sims": c["n_sims"],
+                                  "applied": [[a["tag"], "/".join(map(str, a["path"][1:])), a["value"]] for a in c.get("wide_applied", [])]}
+                                 for c in wide_cfgs]
     # LESSONS 4: the same configuration through the process pool (2 processes; in the thorough tier 5
     # simulations x 3-4 programs = more tasks than 4 x processes, two simulations per worker) with the
     # programs listed in reverse order: every program's estimation files must be the ones of the
@@ -909,7 +954,7 @@ def wholerun_stage(ctx):
         finally:
             shutil.rmtree(wd, ignore_errors=True)
 
-    with cf.ThreadPoolExecutor(max_workers=min(6, len(cfgs) + len(mode_cfgs))) as ex:
+    with cf.ThreadPoolExecutor(max_workers=min(8, len(cfgs) + len(mode_cfgs))) as ex:
         mode_futs = [ex.submit(mode_job, m) for m in mode_cfgs]
         allres = list(ex.map(lambda c: WR.run_config(c, debug=True, trace=True), cfgs))
         mode_out = [f.result() for f in mode_futs]
@@ -953,7 +998,9 @@ def wholerun_stage(ctx):
                                      "file for the program: " + res.log.strip().splitlines()[-1][:200],
                                 {"cfg": res.cfg, "log_tail": res.log[-1500:]})
                 else:
+                    ctx.count("wholerun_not_judged:crashed-outside-the-estimation-code")
                     ctx.note("whole-run configuration crashed outside the estimation code (not judged by C13): "
+                             + json_short(res.cfg.get("wide_applied")) + " "
                              + res.log[-300:].replace("\n", " | "))
                 continue
             ctx.count("wholerun_configs")
@@ -1230,7 +1277,7 @@ def run(ctx):
         ctx.sample({"float_triple": {"f": 0.7, "gap": 10, "orderings": "both"},
                     "helpers(endT,endF,startT,startF)": [int(x[10]) for x in W.helper_offsets(0.7, 0, 20)[1:]]})
 
-    n_rand = ctx.pick(130, 2800)
+    n_rand = ctx.pick(130, 2500)
 
     def st_tables_exact():
         # whole tables, exact factors: model vs implementation
